@@ -287,8 +287,101 @@ func runC20(r *drv.Run) drv.Spec {
 	return sp
 }
 
-// c20generated is extended by the program generator (generated packages).
-var c20generated = func(r *drv.Run, c *c20rec, plain *wgen.Tools, root string, reps int) {}
+// c20generated covers packages beyond std and histories of tool runs:
+// (a) synthetic multi-struct packages (std has one struct per package, so the
+// struct/status/const ordering paths of the generator only vary here) compiled
+// repeatedly in fresh processes; (b) `wuffs gen` after an earlier run with
+// other flags in the same tree must equal a fresh run (no stale reuse).
+var c20generated = func(r *drv.Run, c *c20rec, plain *wgen.Tools, root string, reps int) {
+	npk := 12
+	if r.Thorough() {
+		npk = 200
+	}
+	dir := filepath.Join(r.Scratch, "multipkg")
+	os.MkdirAll(dir, 0o755)
+	var wg sync.WaitGroup
+	sem := make(chan struct{}, 16)
+	for i := 0; i < npk; i++ {
+		wg.Add(1)
+		go func(i int) {
+			defer wg.Done()
+			sem <- struct{}{}
+			defer func() { <-sem }()
+			rr := vk.CaseRNG(r.Seed, 0, "c20multi", int64(i))
+			var sb strings.Builder
+			ns := 2 + rr.Intn(6)
+			nst := rr.Intn(5)
+			for k := 0; k < nst; k++ {
+				fmt.Fprintf(&sb, "pub status \"#%s error %d\"\n", []string{"bad", "odd", "late", "cold"}[rr.Intn(4)], k)
+			}
+			for k := 0; k < 1+rr.Intn(4); k++ {
+				fmt.Fprintf(&sb, "pri const K%d_%d : base.u32 = %d\n", i, k, rr.Intn(1000))
+			}
+			names := []string{"alpha", "beta", "gamma", "delta", "epsilon", "zeta", "eta", "theta"}
+			rr.Shuffle(len(names), func(a, b int) { names[a], names[b] = names[b], names[a] })
+			for k := 0; k < ns; k++ {
+				classy := []string{"", "?"}[rr.Intn(2)]
+				fmt.Fprintf(&sb, "\npub struct %s%s(\n        f%d : base.u32,\n        g : array[%d] base.u8,\n)\n", names[k], classy, k, 1+rr.Intn(9))
+				fmt.Fprintf(&sb, "\npub func %s.get() base.u32 {\n    return this.f%d\n}\n", names[k], k)
+				if classy == "?" {
+					fmt.Fprintf(&sb, "\npub func %s.run?(src: base.io_reader) {\n    this.g[0] = args.src.read_u8?()\n}\n", names[k])
+				}
+			}
+			file := filepath.Join(dir, fmt.Sprintf("m%d.wuffs", i))
+			os.WriteFile(file, []byte(sb.String()), 0o644)
+			pkg := fmt.Sprintf("m%d", i)
+			ref, _, err := plain.GenPackage(pkg, []string{file}, root, plain.Env())
+			if err != nil {
+				c.count("multi_struct_packages_rejected", 1)
+				return
+			}
+			n := 2 * reps
+			for k := 0; k < n; k++ {
+				env := plain.Env()
+				if k%2 == 1 {
+					env = plain.Env(fmt.Sprintf("GOMAXPROCS=%d", 1+k%8))
+				}
+				out, _, err := plain.GenPackage(pkg, []string{file}, root, env)
+				if err != nil || !bytes.Equal(out, ref) {
+					c.viol("nondeterministic:multi-struct-package", fmt.Sprintf("wuffs-c gen of a %d-struct package differs between runs: %s", ns, wgen.FirstDiff(ref, out)),
+						map[string]interface{}{"source": sb.String()})
+					break
+				}
+			}
+			c.class(fmt.Sprintf("multi-struct|structs=%d|statuses=%d", ns, nst))
+			c.count("multi_struct_packages", 1)
+		}(i)
+	}
+	wg.Wait()
+
+	// (b) tool-run histories in one tree
+	for hi, first := range [][]string{{"gen", "-genlinenum"}, {"gen"}} {
+		h := filepath.Join(r.Scratch, fmt.Sprintf("hist%d", hi))
+		if err := wgen.PopulateRoot(drv.RepoDir, h, "forward"); err != nil {
+			continue
+		}
+		run := func(args ...string) error {
+			cmd := exec.Command(filepath.Join(plain.Dir, "wuffs"), args...)
+			cmd.Dir = h
+			cmd.Env = plain.Env()
+			_, err := cmd.CombinedOutput()
+			return err
+		}
+		if err := run(first...); err != nil {
+			continue
+		}
+		if err := run("gen"); err != nil {
+			c.viol("gen:second-run-failed", "`wuffs gen` failed when run after `wuffs "+strings.Join(first, " ")+"` in the same tree", nil)
+			continue
+		}
+		got, _ := os.ReadFile(filepath.Join(h, "release", "c", "wuffs-unsupported-snapshot.c"))
+		want, _ := os.ReadFile(filepath.Join(root, "release", "c", "wuffs-unsupported-snapshot.c"))
+		c.class("history|" + strings.Join(first, "") + "-then-gen")
+		if !bytes.Equal(got, want) {
+			c.viol("stale-output:after-"+strings.Join(first, ""), "`wuffs gen` after `wuffs "+strings.Join(first, " ")+"` in the same tree differs from a fresh `wuffs gen`: "+wgen.FirstDiff(want, got), nil)
+		}
+	}
+}
 
 func tailStr(s string, n int) string {
 	if len(s) <= n {
